@@ -6,8 +6,18 @@ candidate finder and an abstract bump-along update (Model/Scan.lean).  The theor
 accelerated scan is the naive scan, and reduce the soundness of every fact-driven candidate finder to
 the truth of the fact at real matches (which is property C04).  Oracle N (leg of this property)
 compares the real accelerated find with the naive-scan hook on the engine itself.
+
+Second half (from `finder_noSearch_sound` on): the candidate finders of runner.go one by one.
+Model/Finders.lean mirrors `findFirstCharDefault` and every helper it dispatches to as executable
+functions of (published facts, input, position); each `finder_*_sound` derives the soundness of one
+finder from the fact it consumes, stated in the form in which C04 delivers it; `finder_default_sound`
+follows the dispatch; `findFirstChar_scan_eq_naive` composes with the scan-loop theorem:
+facts sound (C04) ⇒ finder sound ⇒ scan = naive.  Leg Fm compares each modelled finder with the real
+one (`VerifFindFirstChar`) at every position of generated inputs.
 -/
 import RegexVerif.Lemmas.Scan
+import RegexVerif.Lemmas.Finders
+import RegexVerif.Props.C04
 
 namespace RegexVerif.Props.C03
 open RegexVerif RegexVerif.Scan RegexVerif.Lemmas.Scan
@@ -159,5 +169,430 @@ example : ∀ p, p ≤ 5 → demoAttempt p ≠ none → demoC p = true := by
   intro p hp h; simp [demoAttempt] at h; simp [demoC]; omega
 example : scan (condFinder demoC false 5) id demoAttempt 0 (-1) false 5 0 = some ⟨1, 2, 3⟩ := by decide
 example : condFinder demoC false 5 2 = (true, 3) ∧ condFinder demoC false 5 4 = (false, 5) := by decide
+
+/-! ## the candidate finders of runner.go, one by one -/
+
+open RegexVerif.Finders RegexVerif.Lemmas.Finders
+
+/-! shared instance: `ab` on "xabab" — successful attempts at 1 and 3 (`demoAttempt` above) -/
+
+def demoText : List Nat := [120, 97, 98, 97, 98]
+
+/-- `ab` right-to-left on "xabab": successful attempts END at 3 and 5 -/
+def demoAttemptRtl : Nat → Option (Nat × Nat) := fun p => if p = 3 ∨ p = 5 then some (p - 2, 2) else none
+
+/-- **`NoSearch`, no anchors, no prefix, no first-character set**: `findFirstCharDefault` returns
+    true without moving; trivially sound in both directions. -/
+theorem finder_noSearch_sound (rtl : Bool) (n : Nat) (attempt : Nat → Option (Nat × Nat)) :
+    FinderSound rtl n finderNoSearch attempt :=
+  finderNoSearch_sound rtl n attempt
+
+example : finderNoSearch 2 = (true, 2) := rfl
+
+/-- **The anchor block of `findFirstCharDefault`** (`Code.Anchors` has Beginning / Start / EndZ / End;
+    the modes `LeadingAnchor_{LeftToRight,RightToLeft}_{Beginning,Start,EndZ,End}` end up here).
+    If every anchor bit that is set holds at the position of every successful attempt (C04:
+    `leadingAnchor_sound` — `p = 0`, `p = textstart`, `p = end`, `p = end ∨ (p = end-1 ∧ text[p] = '\n')`),
+    and the Boyer-Moore prefix, when there is one, occurs at every successful attempt position, then the
+    jumps (to `end`, to `end-1`, to `0`), the early exits and the `IsMatch` test lose no match.  Both
+    directions; `\Z`'s two legal positions are covered (left-to-right the finder jumps to `end-1` and
+    lets the loop bump to `end`; right-to-left it rejects `end-1` unless a newline is there). -/
+theorem finder_anchors_sound (lower : Nat → Nat) (a : Anchors) (bm : Option Bm) (rtl : Bool) (text : List Nat)
+    (textstart : Nat) (attempt : Nat → Option (Nat × Nat))
+    (hA : AnchorFacts a text textstart attempt)
+    (hB : ∀ b, bm = some b → BmFact lower b rtl text attempt) :
+    FinderSound rtl text.length (finderAnchors lower a bm rtl text textstart) attempt := by
+  cases rtl
+  · exact finderAnchors_ltr lower a bm text textstart attempt hA hB
+  · exact finderAnchors_rtl lower a bm text textstart attempt hA hB
+
+/-- `abc$` right-to-left on "xabc\n": the only successful attempt ends at 4, before the final newline -/
+def endzText : List Nat := [120, 97, 98, 99, 10]
+def endzAttempt : Nat → Option (Nat × Nat) := fun p => if p = 4 then some (1, 3) else none
+def endzAnchors : Anchors := { endZ := true }
+def endzBm : Bm := ⟨[97, 98, 99], false⟩
+
+example : AnchorFacts endzAnchors endzText 5 endzAttempt :=
+  ⟨by simp [endzAnchors], by simp [endzAnchors],
+   by intro _ p hp h; simp [endzAttempt] at h; subst h; right; decide,
+   by simp [endzAnchors]⟩
+example : ∀ b, some endzBm = some b → BmFact id b true endzText endzAttempt := by
+  intro b hb; injection hb with hb; subst hb
+  intro p hp h; simp [endzAttempt] at h; subst h; decide
+example : finderAnchors id endzAnchors (some endzBm) true endzText 5 5 = (false, 5) ∧
+    finderAnchors id endzAnchors (some endzBm) true endzText 5 4 = (true, 4) ∧
+    finderAnchors id endzAnchors (some endzBm) true endzText 5 3 = (false, 0) := by decide
+
+/-- **A `false` answer of the anchored finder is local.**  For `abc$` right-to-left on "xabc\n" the
+    finder answers `(false, 5)` at the end of the input — the prefix does not end there — although the
+    match ends at 4, the second legal `\Z` position.  `FinderSound` therefore only lets a `false` answer
+    vouch for the positions up to the one the finder left; the scan loop bumps to 4 and finds the match.
+    (A finder that jumped to the stop position on this failure loses the match: seeded change
+    C15-rtl-endz-bm.) -/
+theorem anchored_false_answer_is_local :
+    finderAnchors id endzAnchors (some endzBm) true endzText 5 5 = (false, 5) ∧ endzAttempt 4 ≠ none ∧
+    FinderSound true endzText.length (finderAnchors id endzAnchors (some endzBm) true endzText 5) endzAttempt ∧
+    scan (finderAnchors id endzAnchors (some endzBm) true endzText 5) id endzAttempt 5 (-1) true 5 3 = some ⟨1, 3, 1⟩ := by
+  refine ⟨by decide, by decide, ?_, by decide⟩
+  apply finder_anchors_sound
+  · exact ⟨by simp [endzAnchors], by simp [endzAnchors],
+      by intro _ p hp h; simp [endzAttempt] at h; subst h; right; decide, by simp [endzAnchors]⟩
+  · intro b hb; injection hb with hb; subst hb
+    intro p hp h; simp [endzAttempt] at h; subst h; decide
+
+example : endzAttempt 4 ≠ none := by decide
+
+/-- **`BmPrefix.Scan`** (no anchor bits; the modes `LeadingString_LeftToRight`, `LeadingString_RightToLeft`
+    and every other mode whose pattern also has a Boyer-Moore prefix end up here): if the prefix occurs at
+    every successful attempt position — starting there left-to-right, ending there right-to-left, under
+    the prefix's own comparison (exact, or `unicode.ToLower` of the text when case-insensitive) — then
+    jumping to the first occurrence in scan order, and giving up when there is none, loses no match. -/
+theorem finder_bmScan_sound (lower : Nat → Nat) (b : Bm) (rtl : Bool) (text : List Nat)
+    (attempt : Nat → Option (Nat × Nat)) (hB : BmFact lower b rtl text attempt) :
+    FinderSound rtl text.length (finderBmScan lower b rtl text) attempt :=
+  finderBmScan_sound lower b rtl text attempt hB
+
+example : BmFact id ⟨[97, 98], false⟩ false demoText demoAttempt := by
+  intro p hp h; rcases Demo.succ_of (len := 2) h with rfl | rfl <;> decide
+example : BmFact id ⟨[97, 98], false⟩ true demoText demoAttemptRtl := by
+  intro p hp h; rcases Demo.succRtl_of h with rfl | rfl <;> decide
+example : finderBmScan id ⟨[97, 98], false⟩ false demoText 2 = (true, 3) ∧
+    finderBmScan id ⟨[97, 98], false⟩ false demoText 4 = (false, 5) ∧
+    finderBmScan id ⟨[97, 98], false⟩ true demoText 4 = (true, 3) ∧
+    finderBmScan id ⟨[97, 98], false⟩ true demoText 2 = (false, 0) := by decide
+
+/-- **The first-character loop** (`Code.FcPrefix`; `LeadingSet_RightToLeft`, `LeadingChar_RightToLeft`,
+    `TrailingAnchor_FixedLength_LeftToRight_EndZ`, wide `LeadingSet_LeftToRight` sets and `NoSearch`
+    patterns with a first-character set end up here): if the first character of every match is in the
+    set (`text[p]` left-to-right, `text[p-1]` right-to-left; raw, not lower-cased — the loop does not
+    fold), stopping at the first such character in scan order loses no match. -/
+theorem finder_fc_sound (mem : Nat → Bool) (rtl : Bool) (text : List Nat)
+    (attempt : Nat → Option (Nat × Nat)) (hF : FcFact mem rtl text attempt) :
+    FinderSound rtl text.length (finderFc mem rtl text) attempt :=
+  finderFc_sound mem rtl text attempt hF
+
+example : FcFact (· == 97) false demoText demoAttempt := by
+  intro p hp h; rcases Demo.succ_of (len := 2) h with rfl | rfl <;> decide
+example : FcFact (· == 98) true demoText demoAttemptRtl := by
+  intro p hp h; rcases Demo.succRtl_of h with rfl | rfl <;> decide
+example : finderFc (· == 97) false demoText 2 = (true, 3) ∧ finderFc (· == 98) true demoText 4 = (true, 3) ∧
+    finderFc (· == 98) true demoText 2 = (false, 0) := by decide
+
+/-- **`TrailingAnchor_FixedLength_LeftToRight_End`** (`findTrailingFixedLengthEnd`): if every match has
+    length exactly `L` and ends at the end of the input (C04: `trailingAnchor_sound` + `fixedLength_sound`,
+    i.e. `p + L = n`), then `end - L` is the only candidate. -/
+theorem finder_trailingEnd_sound (n L : Nat) (attempt : Nat → Option (Nat × Nat))
+    (hT : ∀ p, p ≤ n → attempt p ≠ none → p + L = n) :
+    FinderSound false n (finderTrailingEnd n L) attempt :=
+  finderTrailingEnd_sound n L attempt hT
+
+example : ∀ p, p ≤ 5 → (fun p => if p = 3 then some (3, 2) else none : Nat → Option (Nat × Nat)) p ≠ none → p + 2 = 5 := by
+  intro p _ h; simp at h; omega
+example : finderTrailingEnd 5 2 1 = (true, 3) ∧ finderTrailingEnd 5 2 4 = (false, 5) := by decide
+
+/-- **`LeadingString_OrdinalIgnoreCase_LeftToRight`** (and `LeadingString_LeftToRight` should it reach
+    `findLeadingStringLeftToRight`): if the prefix occurs at the start of every match under the
+    comparison the helper selects (exact; ASCII folding for an ASCII prefix; `c == t || ToLower(t) == c`
+    otherwise) and `MinRequiredLength` is sound, then jumping to the first occurrence — and giving up
+    when it starts too late for the minimum length — loses no match. -/
+theorem finder_leadingString_sound (lower : Nat → Nat) (pat : List Nat) (ignoreCase : Bool) (text : List Nat)
+    (minLen : Nat) (attempt : Nat → Option (Nat × Nat))
+    (hP : ∀ p, p ≤ text.length → attempt p ≠ none → occursAt (stringEq lower ignoreCase pat) pat text p = true)
+    (hM : MinLenSound false text.length minLen attempt) :
+    FinderSound false text.length (finderLeadingString lower pat ignoreCase text minLen) attempt :=
+  finderLeadingString_sound lower pat ignoreCase text minLen attempt hP hM
+
+/-- `(?i)ab` on "xAbab" -/
+def ciText : List Nat := [120, 65, 98, 97, 98]
+
+example : ∀ p, p ≤ ciText.length → demoAttempt p ≠ none → occursAt (stringEq id true [97, 98]) [97, 98] ciText p = true := by
+  intro p hp h; rcases Demo.succ_of (len := 2) h with rfl | rfl <;> decide
+example : MinLenSound false 5 2 demoAttempt := by
+  intro p i l hp h
+  have := Demo.succ_of (len := 2) (p := p) (a := 1) (b := 3) (by show demoAttempt p ≠ none; rw [h]; simp)
+  simp; omega
+example : finderLeadingString id [97, 98] true ciText 2 0 = (true, 1) ∧
+    finderLeadingString id [97, 98] false ciText 2 0 = (true, 3) ∧
+    finderLeadingString id [97, 98] true ciText 2 4 = (false, 5) := by decide
+
+/-- **The leading prefix as C04 delivers it**: with the exact comparison, "occurs at `p`" is
+    `(text.drop p).take pat.length = pat` — the conclusion of `C04.leadingPrefix_sound_runes`. -/
+theorem occursAt_exact_iff (pat text : List Nat) (p : Nat) :
+    occursAt eqExact pat text p = true ↔ (text.drop p).take pat.length = pat :=
+  occursAt_exact pat text p
+
+example : occursAt eqExact [97, 98] demoText 3 = true ∧ (demoText.drop 3).take 2 = [97, 98] := by decide
+
+/-- **`LeadingStrings_LeftToRight` / `LeadingStrings_OrdinalIgnoreCase_LeftToRight`**
+    (`findLeadingStringsLeftToRight`): if one of the prefixes occurs at the start of every match
+    (case-sensitive, or `c == t || ToLower(t) == c`), `MinRequiredLength` is sound and — for the path that
+    skips between possible first runes — no prefix is empty and `LeadingPrefixFirstRunes` contains the first
+    rune of each prefix, then the helper loses no match. -/
+theorem finder_leadingStrings_sound (lower : Nat → Nat) (prefixes : List (List Nat)) (firstRunes : List Nat)
+    (ignoreCase : Bool) (text : List Nat) (minLen : Nat) (attempt : Nat → Option (Nat × Nat))
+    (hP : StringsFacts lower prefixes firstRunes ignoreCase text attempt)
+    (hM : MinLenSound false text.length minLen attempt) :
+    FinderSound false text.length (finderLeadingStrings lower prefixes firstRunes ignoreCase text minLen) attempt :=
+  finderLeadingStrings_sound lower prefixes firstRunes ignoreCase text minLen attempt hP hM
+
+example : StringsFacts id [[97, 98], [120, 121]] [97, 120] false demoText demoAttempt :=
+  ⟨by intro p hp h; refine ⟨[97, 98], by simp, ?_⟩; rcases Demo.succ_of (len := 2) h with rfl | rfl <;> decide,
+   by intro _ _ pre hpre; simp at hpre; rcases hpre with rfl | rfl <;> simp,
+   by intro _ _ pre hpre c rest hc; simp at hpre; rcases hpre with rfl | rfl <;> simp at hc <;> simp [hc.1]⟩
+example : finderLeadingStrings id [[97, 98], [120, 121]] [97, 120] false demoText 2 0 = (true, 1) ∧
+    finderLeadingStrings id [[97, 98], [120, 121]] [97, 120] false demoText 2 2 = (true, 3) ∧
+    finderLeadingStrings id [[97, 98], [120, 121]] [97, 120] true demoText 2 2 = (true, 3) ∧
+    finderLeadingStrings id [[97, 98], [120, 121]] [97, 120] false demoText 2 4 = (false, 5) := by decide
+
+/-- **`LeadingPrefixFirstRunes` is complete**: computed as `leadingPrefixFirstRunes` does (the distinct
+    first runes of the prefixes), it contains the first rune of every prefix — the `first` assumption of
+    `StringsFacts` holds by construction. -/
+theorem firstRunes_complete (prefixes : List (List Nat)) :
+    ∀ pre, pre ∈ prefixes → ∀ c rest, pre = c :: rest → c ∈ leadingPrefixFirstRunes prefixes :=
+  leadingPrefixFirstRunes_complete prefixes
+
+example : leadingPrefixFirstRunes [[97, 98], [120, 121], [97, 99]] = [97, 120] := by decide
+
+/-- **`FixedDistanceChar_LeftToRight`** (`findFixedDistanceCharLeftToRight`): if the character `c`
+    stands `d` positions after the start of every match (`text[p+d] = c`) and `MinRequiredLength` is
+    sound, then searching `c` from `pos+d` on and stepping back `d` loses no match. -/
+theorem finder_fixedChar_sound (c d : Nat) (text : List Nat) (minLen : Nat) (attempt : Nat → Option (Nat × Nat))
+    (hC : ∀ p, p ≤ text.length → attempt p ≠ none → text[p + d]? = some c)
+    (hM : MinLenSound false text.length minLen attempt) :
+    FinderSound false text.length (finderFixedChar c d text minLen) attempt :=
+  finderFixedChar_sound c d text minLen attempt hC hM
+
+example : ∀ p, p ≤ demoText.length → demoAttempt p ≠ none → demoText[p + 1]? = some 98 := by
+  intro p hp h; rcases Demo.succ_of (len := 2) h with rfl | rfl <;> decide
+example : finderFixedChar 98 1 demoText 2 0 = (true, 1) ∧ finderFixedChar 98 1 demoText 2 2 = (true, 3) ∧
+    finderFixedChar 98 1 demoText 2 4 = (false, 5) := by decide
+
+/-- **`FixedDistanceString_LeftToRight`** (`findFixedDistanceStringLeftToRight`): the same for a
+    case-sensitive literal at distance `d`. -/
+theorem finder_fixedString_sound (lit : List Nat) (d : Nat) (text : List Nat) (minLen : Nat)
+    (attempt : Nat → Option (Nat × Nat))
+    (hC : ∀ p, p ≤ text.length → attempt p ≠ none → occursAt eqExact lit text (p + d) = true)
+    (hM : MinLenSound false text.length minLen attempt) :
+    FinderSound false text.length (finderFixedString lit d text minLen) attempt :=
+  finderFixedString_sound lit d text minLen attempt hC hM
+
+/-- `.ab` on "xxabab": successful attempts at 1 and 3 -/
+def fdText : List Nat := [120, 120, 97, 98, 97, 98]
+def fdAttempt : Nat → Option (Nat × Nat) := fun p => if p = 1 ∨ p = 3 then some (p, 3) else none
+
+example : ∀ p, p ≤ fdText.length → fdAttempt p ≠ none → occursAt eqExact [97, 98] fdText (p + 1) = true := by
+  intro p hp h; rcases Demo.succ_of (len := 3) h with rfl | rfl <;> decide
+example : finderFixedString [97, 98] 1 fdText 3 0 = (true, 1) ∧ finderFixedString [97, 98] 1 fdText 3 2 = (true, 3) ∧
+    finderFixedString [97, 98] 1 fdText 3 4 = (false, 6) := by decide
+
+/-- **`FixedDistanceSets_LeftToRight` and `LeadingSet_LeftToRight`** (`findFixedDistanceSetsLeftToRight`):
+    if at every match each published set contains the character at its distance
+    (`fixedDistanceSetsMatchAt`, membership as `charInFixedDistanceSet` computes it: `Chars`, else `Range`,
+    else the `CharSet`), the list is non-empty and its first set carries its `CharSet`, and
+    `MinRequiredLength` is sound, then searching the primary set and checking the others loses no match. -/
+theorem finder_fixedSets_sound (sets : List FDSet) (text : List Nat) (minLen : Nat) (attempt : Nat → Option (Nat × Nat))
+    (hwf : ∃ primary rest, sets = primary :: rest ∧ primary.set.isSome = true)
+    (hS : ∀ p, p ≤ text.length → attempt p ≠ none → fixedSetsMatchAt sets text p = true)
+    (hM : MinLenSound false text.length minLen attempt) :
+    FinderSound false text.length (finderFixedSets sets text minLen) attempt :=
+  finderFixedSets_sound sets text minLen attempt hwf hS hM
+
+/-- `.[ab][a-b]` : a `Chars` set at distance 1 and a `Range` set at distance 2 -/
+def fdSets : List FDSet :=
+  [{ chars := [97, 98], set := some (fun c => c == 97 || c == 98), distance := 1 },
+   { range := some (97, 98), set := some (fun c => c == 97 || c == 98), distance := 2 }]
+
+example : ∀ p, p ≤ fdText.length → fdAttempt p ≠ none → fixedSetsMatchAt fdSets fdText p = true := by
+  intro p hp h; rcases Demo.succ_of (len := 3) h with rfl | rfl <;> decide
+example : finderFixedSets fdSets fdText 3 0 = (true, 1) ∧ finderFixedSets fdSets fdText 3 4 = (false, 6) := by decide
+
+/-- **`LiteralAfterLoop_LeftToRight`** (`findLiteralAfterLoopLeftToRight`): if from the start of every
+    match a run of loop-set characters leads to an occurrence of the literal (string, one of `Chars`, or
+    `Char`), and `MinRequiredLength` is sound, then searching the literal and walking back over the loop set
+    (not beyond the current position) loses no match. -/
+theorem finder_literalAfterLoop_sound (lower : Nat → Nat) (l : LitAfterLoop) (S : Nat → Bool) (text : List Nat)
+    (minLen : Nat) (attempt : Nat → Option (Nat × Nat))
+    (hset : l.loopSet = some S)
+    (hL : LitAfterLoopFact lower l S text attempt)
+    (hM : MinLenSound false text.length minLen attempt) :
+    FinderSound false text.length (finderLiteralAfterLoop lower l text minLen) attempt :=
+  finderLiteralAfterLoop_sound lower l S text minLen attempt hset hL hM
+
+/-- `x*ab` on "xxabab": successful attempts at 0, 1, 2 (ending after the first "ab") and 4 -/
+def lalAttempt : Nat → Option (Nat × Nat) := fun p => if p ≤ 2 then some (p, 4 - p) else if p = 4 then some (4, 2) else none
+def lalLit : LitAfterLoop := { str := [97, 98], loopSet := some (· == 120) }
+
+example : LitAfterLoopFact id lalLit (· == 120) fdText lalAttempt := by
+  intro p hp h
+  by_cases h2 : p ≤ 2
+  · refine ⟨2, h2, by decide, ?_⟩
+    intro j hj1 hj2
+    have : j = 0 ∨ j = 1 := by omega
+    rcases this with rfl | rfl <;> decide
+  · by_cases h4 : p = 4
+    · subst h4
+      exact ⟨4, Nat.le_refl _, by decide, fun j h1 h2 => by omega⟩
+    · simp [lalAttempt, h2, h4] at h
+example : finderLiteralAfterLoop id lalLit fdText 2 0 = (true, 0) ∧ finderLiteralAfterLoop id lalLit fdText 2 3 = (true, 4) ∧
+    finderLiteralAfterLoop id lalLit fdText 2 5 = (false, 6) := by decide
+
+/-- **`findFirstCharDefault` as a whole.**  Whatever path the dispatch takes — anchor bits, else the
+    Boyer-Moore prefix, else the helper of the find mode when `shouldUseFindFirstCharOptimized` says so,
+    else the first-character set, else nothing — if the facts that path consumes are true at every
+    successful attempt (`FactsSound`; for the required-landmark chain the helper's soundness itself is
+    the assumption), the finder only skips positions at which the program fails. -/
+theorem finder_default_sound (f : Facts) (text : List Nat) (textstart : Nat) (attempt : Nat → Option (Nat × Nat))
+    (h : FactsSound f text textstart attempt) :
+    FinderSound f.rtl text.length (finderDefault f text textstart) attempt :=
+  finderDefault_sound f text textstart attempt h
+
+/-- `.ab`: mode `FixedDistanceString_LeftToRight`, "ab" at distance 1, minimum length 3 -/
+def demoFacts : Facts :=
+  { opts := { mode := .fixedDistanceStringLtr, minLen := 3, fixedString := [97, 98], fixedDistance := 1 } }
+
+example : FactsSound demoFacts fdText 0 fdAttempt :=
+  ⟨by simp [demoFacts, Anchors.any], by simp [demoFacts],
+   by
+    intro _ _ _
+    refine ⟨rfl, ?_, ?_⟩
+    · intro p i l hp h
+      have := Demo.succ_of (len := 3) (p := p) (a := 1) (b := 3) (by show fdAttempt p ≠ none; rw [h]; simp)
+      simp [demoFacts, fdText]; omega
+    · show ∀ p, p ≤ fdText.length → fdAttempt p ≠ none → occursAt eqExact [97, 98] fdText (p + 1) = true
+      intro p hp h; rcases Demo.succ_of (len := 3) h with rfl | rfl <;> decide,
+   by intro _ _ h; simp [demoFacts, shouldUse] at h⟩
+
+example : finderDefault demoFacts fdText 0 0 = (true, 1) ∧ finderDefault demoFacts fdText 0 2 = (true, 3) := by decide
+
+/-- **Facts sound ⇒ scan = naive scan** (both directions; `f.rtl` is the direction).  With the real
+    dispatch of `findFirstCharDefault` as candidate finder, a sound bump-along update and a sound
+    `MinRequiredLength`, `Runner.scan` from any start offset and previous-match length returns the first
+    successful attempt in scan order.  Together with C04 (the published facts are true at every match)
+    this is C03 for the modelled finders. -/
+theorem findFirstChar_scan_eq_naive (f : Facts) (text : List Nat) (textstart : Nat)
+    (after : Nat → Nat) (attempt : Nat → Option (Nat × Nat))
+    (hS : AttemptShape f.rtl text.length attempt)
+    (hF : FactsSound f text textstart attempt)
+    (hA : AfterSound f.rtl text.length after attempt)
+    (hM : MinLenSound f.rtl text.length f.opts.minLen attempt)
+    (start : Nat) (prevLen : Int) (hstart : start ≤ text.length) :
+    scan (finderDefault f text textstart) after attempt start prevLen f.rtl text.length f.opts.minLen =
+      (naive attempt start prevLen f.rtl text.length).map (Hit.ofSpan f.rtl) :=
+  scan_eq_naive _ after attempt f.rtl text.length f.opts.minLen hS
+    (finderDefault_sound f text textstart attempt hF) hA hM start prevLen hstart
+
+example : scan (finderDefault demoFacts fdText 0) id fdAttempt 0 (-1) false 6 3 = some ⟨1, 3, 4⟩ := by decide
+example : AttemptShape false 6 fdAttempt := by
+  intro p i l hp h
+  have hp13 := Demo.succ_of (len := 3) (p := p) (a := 1) (b := 3) (by show fdAttempt p ≠ none; rw [h]; simp)
+  simp only [fdAttempt, hp13, if_true, Option.some.injEq, Prod.mk.injEq] at h
+  simp; omega
+
+/-- the left-to-right instance with no bump-along (`after = id`), in the shape of
+    `fact_driven_scan_eq_naive` -/
+theorem findFirstChar_scan_eq_naive_ltr (f : Facts) (hdir : f.rtl = false) (text : List Nat) (textstart : Nat)
+    (attempt : Nat → Option (Nat × Nat))
+    (hS : AttemptShape false text.length attempt) (hF : FactsSound f text textstart attempt)
+    (hM : MinLenSound false text.length f.opts.minLen attempt)
+    (start : Nat) (prevLen : Int) (hstart : start ≤ text.length) :
+    scan (finderDefault f text textstart) id attempt start prevLen false text.length f.opts.minLen =
+      (naive attempt start prevLen false text.length).map (Hit.ofSpan false) := by
+  have := findFirstChar_scan_eq_naive f text textstart id attempt (by rwa [hdir]) hF
+    (by rw [hdir]; intro q hq _; simp only [Bool.false_eq_true, if_false, id]; exact ⟨Nat.le_refl _, hq, fun p h1 h2 => by omega⟩)
+    (by rwa [hdir]) start prevLen hstart
+  rwa [hdir] at this
+
+example : demoFacts.rtl = false := rfl
+
+/-- the right-to-left instance with no bump-along -/
+theorem findFirstChar_scan_eq_naive_rtl (f : Facts) (hdir : f.rtl = true) (text : List Nat) (textstart : Nat)
+    (attempt : Nat → Option (Nat × Nat))
+    (hS : AttemptShape true text.length attempt) (hF : FactsSound f text textstart attempt)
+    (hM : MinLenSound true text.length f.opts.minLen attempt)
+    (start : Nat) (prevLen : Int) (hstart : start ≤ text.length) :
+    scan (finderDefault f text textstart) id attempt start prevLen true text.length f.opts.minLen =
+      (naive attempt start prevLen true text.length).map (Hit.ofSpan true) := by
+  have := findFirstChar_scan_eq_naive f text textstart id attempt (by rwa [hdir]) hF
+    (by rw [hdir]; intro q _ _; simp only [if_true, id]; exact ⟨Nat.le_refl _, fun p h1 h2 => by omega⟩)
+    (by rwa [hdir]) start prevLen hstart
+  rwa [hdir] at this
+
+/-- `abc$` right-to-left with the anchor bit EndZ and the Boyer-Moore prefix "abc" -/
+def endzFacts : Facts := { rtl := true, anchors := endzAnchors, bm := some endzBm, opts := { mode := .leadingAnchorRtlEndZ, minLen := 3 } }
+
+example : FactsSound endzFacts endzText 5 endzAttempt :=
+  ⟨fun _ => ⟨by simp [endzFacts, endzAnchors], by simp [endzFacts, endzAnchors],
+      by intro _ p hp h; simp [endzAttempt] at h; subst h; right; decide, by simp [endzFacts, endzAnchors]⟩,
+   by intro b hb; simp [endzFacts] at hb; subst hb; intro p hp h; simp [endzAttempt] at h; subst h; decide,
+   by intro h; simp [endzFacts, endzAnchors, Anchors.any] at h,
+   by intro h; simp [endzFacts, endzAnchors, Anchors.any] at h⟩
+example : scan (finderDefault endzFacts endzText 5) id endzAttempt 5 (-1) true 5 3 = some ⟨1, 3, 1⟩ := by decide
+
+/-! ## one mode end to end: C04 ⇒ finder sound ⇒ scan = naive
+
+`TrailingAnchor_FixedLength_LeftToRight_End` consumes only facts whose analyses C04 models
+(`findLeadingOrTrailingAnchor(root, false)`, `ComputeMinLength`, `computeMaxLength`), so for it the
+chain closes inside Lean, for the specification's own attempt.  (The anchor bits `Code.Anchors`, the
+Boyer-Moore prefix and the first-character set come from `getAnchors` / `getPrefix` /
+`getFirstCharsPrefix`, which C04 does not model: for those paths the hypothesis of the finder theorem
+is discharged per case by leg H of C04.) -/
+
+/-- the specification's single-position attempt in the shape of the scan model (as in
+    `C04.minLenSound_spec`) -/
+def specAttempt (e : Spec.Env) (p : Spec.Pat) (rtl : Bool) : Nat → Option (Nat × Nat) :=
+  fun i => (Spec.attempt e p rtl i).bind (fun st => Spec.lastCap st.caps 0)
+
+/-- **C04 delivers the fact of the trailing-anchor mode**: if the pattern's trailing anchor is `\z`
+    and its minimum and maximum lengths coincide, every successful attempt of the specification starts
+    exactly `minLen` before the end of the input. -/
+theorem spec_trailingEnd_fact (e : Spec.Env) (p : Spec.Pat)
+    (ht : Facts.trailingAnchor false p = some .«end») (hk : Facts.maxLen p = some (Facts.minLen p)) :
+    ∀ i, i ≤ e.n → specAttempt e p false i ≠ none → i + Facts.minLen p = e.n := by
+  intro i hi hne
+  unfold specAttempt at hne
+  cases hat : Spec.attempt e p false i with
+  | none => rw [hat] at hne; simp at hne
+  | some st =>
+    obtain ⟨y, hy, _, _⟩ := Facts.attempt_success e p false i st hat
+    have h1 := C04.trailingAnchor_sound e p false .«end» ht _ y hy
+    have h2 := C04.fixedLength_sound e p false _ y hy hk
+    have h3 := C04.m_monotone e p false _ y hy
+    simp [Spec.anchorHolds] at h1 h2 h3
+    omega
+
+/-- **The chain for `TrailingAnchor_FixedLength_LeftToRight_End`**: for a pattern with trailing `\z`
+    and fixed length, `findTrailingFixedLengthEnd` is a sound finder for the specification's attempt —
+    no hypothesis about the input or the match is left. -/
+theorem spec_trailingEnd_finder_sound (e : Spec.Env) (p : Spec.Pat)
+    (ht : Facts.trailingAnchor false p = some .«end») (hk : Facts.maxLen p = some (Facts.minLen p)) :
+    FinderSound false e.n (finderTrailingEnd e.n (Facts.minLen p)) (specAttempt e p false) :=
+  finder_trailingEnd_sound e.n (Facts.minLen p) _ (spec_trailingEnd_fact e p ht hk)
+
+/-- `ab\z`: Concatenate(One a, One b, End) on "xab" -/
+def tePat : Spec.Pat := .seq (.chr (.one 97 false)) (.seq (.chr (.one 98 false)) (.anchor .«end»))
+def teEnv : Spec.Env := { text := [120, 97, 98], textstart := 0, named := [], word := [], fold := [] }
+
+example : Facts.trailingAnchor false tePat = some .«end» ∧ Facts.maxLen tePat = some (Facts.minLen tePat) := by decide
+example : specAttempt teEnv tePat false 1 = some (1, 2) ∧ finderTrailingEnd teEnv.n (Facts.minLen tePat) 0 = (true, 1) := by decide
+
+/-- **`AnchorFacts` is `Spec.anchorHolds`**: the hypothesis of `finder_anchors_sound` for a bit is
+    exactly that the specification's anchor predicate (`\A`, `\G`, `\Z`, `\z`) holds at the position of
+    every successful attempt — the conclusion of `C04.leadingAnchor_sound`. -/
+theorem anchorFacts_of_anchorHolds (e : Spec.Env) (a : Anchors) (attempt : Nat → Option (Nat × Nat))
+    (hb : a.beginning = true → ∀ p, p ≤ e.n → attempt p ≠ none → Spec.anchorHolds e .beginning p = true)
+    (hs : a.start = true → ∀ p, p ≤ e.n → attempt p ≠ none → Spec.anchorHolds e .start p = true)
+    (hz : a.endZ = true → ∀ p, p ≤ e.n → attempt p ≠ none → Spec.anchorHolds e .endz p = true)
+    (he : a.«end» = true → ∀ p, p ≤ e.n → attempt p ≠ none → Spec.anchorHolds e .«end» p = true) :
+    AnchorFacts a e.text e.textstart attempt := by
+  refine ⟨?_, ?_, ?_, ?_⟩
+  · intro h p hp ha; have := hb h p hp ha; simpa [Spec.anchorHolds] using this
+  · intro h p hp ha; have := hs h p hp ha; simpa [Spec.anchorHolds] using this
+  · intro h p hp ha
+    have := hz h p hp ha
+    simp only [Spec.anchorHolds, Spec.Env.n, Bool.or_eq_true, beq_iff_eq, Bool.and_eq_true] at this
+    exact this
+  · intro h p hp ha; have := he h p hp ha; simpa [Spec.anchorHolds, Spec.Env.n] using this
+
+example : Spec.anchorHolds teEnv .endz 3 = true ∧ Spec.anchorHolds teEnv .beginning 0 = true := by decide
 
 end RegexVerif.Props.C03
